@@ -16,6 +16,9 @@ RULE = ("every loop / app / tame case is run on the real MainLoop and on the rea
         ' Later rounds: handlers registered while the loop runs; typed lines are handed in under the same reader schedule on both loops.')
 
 
+HANG_IS_VIOLATION = "the same screens, lines and handlers on both loops: one of the two real loops hangs on a session the model finishes"
+
+
 def gen_flat(rnd, sid):
     """a flat handler program on one level: handlers only enqueue (any priorities, incl. more urgent ones); both disciplines of Model/GLoop.lean apply"""
     ncls = rnd.randint(1, 3)
